@@ -211,6 +211,30 @@ NamespaceApiClauses(g, b) == [
 NamespaceApiNames == {"ApiHeader", "ApiNInfos", "ApiDirectory", "ApiNoCritical"}
 
 ---------------------------------------------------------------------------
+(* Part 4b: the accessors and g-ir-generate AS WRITTEN, where they do more than read one field (implementation-shaped layer of C09; *)
+(* the section arithmetic is Typelib!AccessorOffset).  dev = behaviours of earlier versions, each repaired by a fix: commit:        *)
+(*   "union_not_deprecated"  g_base_info_is_deprecated had no case for unions (before 5e762b5)                                     *)
+(*   "boxed_refused"         g_struct_info_get_copy/free_function emitted a critical for boxed infos (before 9e9f49a)              *)
+(*   "gen_no_enum_methods"   write_enum_info wrote the members only (before d05070a)                                               *)
+(*   "gen_union_no_prefix"   write_union_info wrote type-name= / get-type= without glib: (before 0aee3e2)                          *)
+(*   "gen_percent_f"         floating point constants printed with %f (before 66699dc)                                             *)
+(*   "gen_raw_newline"       string constants written with literal line feeds / tabs (before cb67ae0)                              *)
+ImplIsDeprecated(infoKind, bit, dev) == IF infoKind = "union" /\ "union_not_deprecated" \in dev THEN 0 ELSE bit
+ImplCopyFreeCriticals(infoKind, dev) == IF infoKind = "boxed" /\ "boxed_refused" \in dev THEN 2 ELSE 0
+ImplGenMethods(bt, methods, dev) == IF bt \in {5, 6} /\ "gen_no_enum_methods" \in dev THEN <<>> ELSE methods
+ImplGenTypeName(bt, name, dev) == IF bt = 11 /\ "gen_union_no_prefix" \in dev THEN "" ELSE name
+\* constants by class of value: does the text g-ir-generate writes read back to the stored value?
+ConstClasses == {"integer", "six_decimals", "seventeen_digits", "tiny", "plain_string", "string_with_newline"}
+ImplGenPreserves(class, dev) == /\ ~(class \in {"seventeen_digits", "tiny"} /\ "gen_percent_f" \in dev)
+                                /\ ~(class = "string_with_newline" /\ "gen_raw_newline" \in dev)
+\* the property layer on such a case [infoKind, bt, bit, methods, class]
+ImplMeetsApi(c, dev) == /\ ImplIsDeprecated(c.infoKind, c.bit, dev) = c.bit              \* ApiDeprecated
+                        /\ ImplCopyFreeCriticals(c.infoKind, dev) = 0                    \* ApiNoCritical
+                        /\ ImplGenMethods(c.bt, c.methods, dev) = c.methods              \* GenMembers
+                        /\ ImplGenTypeName(c.bt, "TstT", dev) = "TstT"                   \* GenRegisteredType
+                        /\ ImplGenPreserves(c.class, dev)                                \* GenConstValue
+
+---------------------------------------------------------------------------
 (* Part 5: g-ir-generate.  x = an element of the XML it wrote, projected with ElementTree (attribute values as written,    *)
 (* "" = absent; integers -1 = absent; children by kind, in document order);  g = the decoded blob.                        *)
 W(bit) == IF bit = 1 THEN "1" ELSE ""
